@@ -118,6 +118,15 @@ REWORK = {'devices': [{'k': 'source', 'name': 'src', 'cycle': 'c0', 'parts': 1, 
                       {'k': 'sink', 'name': 'snk', 'up': ['g_ok'], 'cycle': 0}]}
 
 
+REWORK_GROUP = {'groups': [{'name': 'g', 'devices': ['m']}],
+                'devices': [{'k': 'source', 'name': 'src', 'cycle': 'c0', 'parts': 2, 'value': 0},
+                            {'k': 'handler', 'name': 'm', 'up': [], 'cycle': 'c1'},
+                            {'k': 'path', 'name': 'gp', 'group': 'g', 'up': ['src'], 'up_late': ['src', 'rw']},
+                            {'k': 'gate', 'name': 'g_ok', 'up': ['gp'], 'pred': 'value_ge1'}, {'k': 'gate', 'name': 'g_bad', 'up': ['gp'], 'pred': 'value_lt1'},
+                            {'k': 'handler', 'name': 'rw', 'up': ['g_bad'], 'cycle': 'c2', 'recv_addvalue': 1},
+                            {'k': 'sink', 'name': 'snk', 'up': ['g_ok'], 'cycle': 0}]}
+
+
 def _faults_basic(nparts, ops, **kw):
     return with_ops(serial('P', nparts), ops, **kw)
 
@@ -247,6 +256,9 @@ def _subs(tier, prop):
         spf['devices'][1]['finish_offset'] = 'o2'
         S.append(mk_sub('F1-P-finish-callback-offset-zero-cycle', spf, mons, zero=['cs', 'c1'], ranges={'o2': (-L.T, L.T)}))
         S.append(mk_sub('F1-P-finish-callback-offset', spf, mons, zero=['cs', 'c0'], ranges={'o2': (-L.T, L.T)}))
+        S.append(mk_sub('F1-P-two-offsets-for-one-cycle', with_ops(serial('P', 2), [
+            {'k': 'offset', 'dev': 'p1', 't': 0, 'amount': 'o1', 'prio': 'high'}, {'k': 'offset', 'dev': 'p1', 't': 0, 'amount': 'o2', 'prio': 'high'}]),
+            mons, zero=['cs', 'c0'], ranges={'o1': (-L.T, L.T), 'o2': (-L.T, L.T)}))
         S.append(mk_sub('F1-P-offset', with_ops(serial('P', 2), [
             {'k': 'offset', 'dev': 'p1', 't': 0, 'amount': 'o1', 'prio': 'high'}]), mons, zero=['cs'],
             ranges={'o1': (-L.T, L.T)}))
@@ -447,6 +459,7 @@ def _subs(tier, prop):
         S.append(mk_sub('F4-nested-inner-path-first-of-two', nested2, mons, zero=['c0']))
         S.append(mk_sub('F7-batches-through-gate-refused', batches_through_gate(2), mons, zero=['cs', 'c0']))
         S.append(mk_sub('F3-rework-loop-through-value-gates', REWORK, mons))
+        S.append(mk_sub('F4-rework-loop-re-entering-a-group', REWORK_GROUP, mons, zero=['c0']))
         S.append(mk_sub('F4-fanout-behind-group-path', GROUP_FANOUT, mons, zero=['cs', 'c0']))
         fanb = {'devices': [{'k': 'source', 'name': 'src', 'cycle': 'c0', 'parts': 2},
                             {'k': 'proc', 'name': 'p1', 'up': ['src'], 'cycle': 'c1'}, {'k': 'proc', 'name': 'p2', 'up': ['src'], 'cycle': 'c1'},
@@ -459,7 +472,7 @@ def _subs(tier, prop):
                         mons, zero=['cs', 'c0'], pre=['t0 <= t1']))
     elif prop == 'C17':
         mons = ['batch', 'buffer', 'census']
-        for size in ([None, 2] if q else [None, 1, 2, 3]):
+        for size in ([None, 1, 2] if q else [None, 1, 2, 3]):
             for batches in ([[None, 'b1', None], ['b0', 'b1']] if q else [[None, 'b1', None], ['b0', 'b1'], ['b0', None, 'b2'], [None, None, None]]):
                 spec = {'devices': [{'k': 'source', 'name': 'src', 'cycle': 'c0', 'parts': len(batches), 'batches': batches},
                                     {'k': 'batcher', 'name': 'bat', 'up': ['src'], 'size': size},
